@@ -313,6 +313,9 @@ func schedWorker() {
 		fmt.Fprintln(os.Stderr, "INFRA: unknown scenario", os.Args[2])
 		os.Exit(2)
 	}
+	if raceEnabled {
+		sched.MaxExecutions = 6000
+	}
 	r := sched.Explore(sc, bound, time.Unix(0, dl), shard, n)
 	b, _ := json.Marshal(struct {
 		*sched.Result
